@@ -10,10 +10,19 @@ REPO = os.environ.get("VERIF_REPO", "/repo")
 VERIF = os.path.dirname(os.path.dirname(os.path.abspath(__file__)))
 
 
+_ENVIRONMENT_SET = []
+
+
 def import_dsw():
     """Import dsw from the repository's *current working tree* (nothing else has to be built: pure Python)."""
     if sys.path[0] != REPO:
         sys.path.insert(0, REPO)
+    if not _ENVIRONMENT_SET:
+        # a legal but unusual environment: numpy abbreviates every array of more than 8 entries when it is printed,
+        # so library code that keys or parses anything on str(array) / repr(object holding arrays) is exposed
+        import numpy
+        numpy.set_printoptions(threshold=8, edgeitems=1, linewidth=60, precision=3)
+        _ENVIRONMENT_SET.append(True)
     import dsw
     where = os.path.realpath(dsw.__file__)
     if not where.startswith(os.path.realpath(REPO) + os.sep):
@@ -159,10 +168,14 @@ def lib_call(function, *args, **kwargs):
             return first
         arguments = list(args) + list(kwargs.values())
         scribble(first, arguments)
+        import warnings
         try:
-            second = function(*args, **kwargs)
+            with warnings.catch_warnings():
+                warnings.simplefilter("error")  # the repeated call runs as under `python -W error`
+                second = function(*args, **kwargs)
         except Exception as exc:  # noqa
-            return Raised(ResultNotReproducible("second identical call raised %s: %s" % (type(exc).__name__, exc)))
+            return Raised(ResultNotReproducible("second identical call (warnings escalated to errors) raised %s: %s"
+                                                % (type(exc).__name__, exc)))
         if not _equal(kept, second):
             return Raised(ResultNotReproducible(
                 "the same call on the same arguments returned a different result after the caller overwrote its "
